@@ -11,6 +11,7 @@ let rec z_of_int (i : int) : z = if i = 0 then Z0 else if i > 0 then Zpos (pos_o
 let int_of_z = function Z0 -> 0 | Zpos p -> int_of_pos p | Zneg p -> - (int_of_pos p)
 
 let fixmax = c14_RECONNMAX_RESETS
+let reap_waits = c14_REAP_WAITS_START   (* pipe_reap defers while nni_pipe_start is running (repaired form) *)
 let wide = c14_BACKOFF_WIDE
 let dstep = dstep fixmax wide
 
@@ -28,6 +29,7 @@ let dials : dialst option array = Array.make nep None
 let lsts : lstst option array = Array.make nep None
 let pinfos : pinfo array ref = ref [||]
 let npipes () = Array.length !pinfos
+let race_armed = ref false   (* "racestart": see harness/wb_pipeev.c *)
 
 let reset () =
   Array.fill socks 0 nsock None; Array.fill dials 0 nep None; Array.fill lsts 0 nep None; pinfos := [||]
@@ -107,7 +109,26 @@ let settle_pass () : bool =
            if ok then begin
              pi.used <- true;
              if single s.proto then s.active <- Some g;
-             if pi.dead then sstep_ pi.sk (OClose i)       (* its first receive fails: the protocol closes it *)
+             if pi.dead then sstep_ pi.sk (OClose i);      (* its first receive fails: the protocol closes it *)
+             if !race_armed then begin
+               (* another thread closes the pipe while the protocol's pipe_start is running, and the
+                  reaper is through with it before *_start_pipe goes on *)
+               race_armed := false;
+               sstep_ pi.sk (OClose i);
+               if not reap_waits then begin
+                 let fuel = ref 40 in
+                 while !fuel > 0 && (pipe_of g).p_rpc <> RDone do
+                   decr fuel;
+                   (match (pipe_of g).p_rpc with
+                    | RQueued -> if s.active = Some g then s.active <- None; sstep_ pi.sk (OReap i)
+                    | RTranClose | RStop | RRemove -> sstep_ pi.sk (OReap i)
+                    | RRemRead -> sstep_ pi.sk (OCbRead (i, WReap))
+                    | RRemEnter _ -> sstep_ pi.sk (OCbEnter (i, WReap))
+                    | RRemInCb -> cb_actions WReap 3
+                    | RNone | RDone -> ())
+                 done
+               end
+             end
            end;
            did ()
        | SIdle | SDone -> ());
@@ -230,7 +251,7 @@ let idx (s : string) = int_of_string (String.sub s 1 (String.length s - 1))
 
 let () =
   (if Array.length Sys.argv > 1 && Sys.argv.(1) = "--flags" then
-     (Printf.printf "fixmax=%b wide=%b\n" fixmax wide; exit 0));
+     (Printf.printf "fixmax=%b wide=%b reap_waits=%b\n" fixmax wide reap_waits; exit 0));
   try
     while true do
       let line = input_line stdin in
@@ -279,11 +300,14 @@ let () =
            | None -> observe 12 "")
       | ["dopt"; d; which; v] ->
           let v = int_of_string v in
-          if v < -1 then observe 3 ""
-          else begin
-            dial_step (idx d) (if which = "min" then DSetMin (z_of_int v) else DSetMax (z_of_int v));
-            observe 0 ""
-          end
+          (match dials.(idx d) with
+           | Some ds when ds.dopen ->
+               if v < -1 then observe 3 ""
+               else begin
+                 dial_step (idx d) (if which = "min" then DSetMin (z_of_int v) else DSetMax (z_of_int v));
+                 observe 0 ""
+               end
+           | _ -> observe 12 "")
       | ["conn"; l; peer] ->
           let k = idx l in
           (match lsts.(k) with
@@ -371,6 +395,7 @@ let () =
             | _ -> ()) lsts;
           observe 0 ""
       | ["poll"] -> observe 0 ""
+      | ["racestart"] -> race_armed := true; observe 0 ""
       | op :: _ -> print_endline ("badop " ^ op)
     done
   with End_of_file -> ()
